@@ -26,7 +26,8 @@
  *       nil-terminated inside the jumbo data;
  *   (c) no die(), return value 0 or -1.
  *
- * Known finding guards (see checks/C19.py):
+ * Guards of the former findings (off by default: fixed in the tree by d22f79a / 1e8d2f1;
+ * C19_KF=1 in checks/C19.py turns them on):
  *   KF_D5_PRETYPE   pre_type (nosv, nanos6) trusts the jumbo shape: excluded signature =
  *                   category 'Y', value 'c', jumbo event, and NOT (>= 5 data bytes and a nil
  *                   inside the label).  (The other half of D5, the stale is_jumbo of emu_ev(),
@@ -46,6 +47,9 @@
 #ifndef SLACK
 #define SLACK 0           /* bytes of the heap object BEHIND the event (see the header) */
 #endif
+
+#include "diag.h"
+#include "c19_libc.h"      /* memchr model (pre_type) */
 
 #define HARNESS_INPUTS uint8_t raw[EVMAX]; uint8_t slack[16]; uint8_t stale_nil; int stale_jumbo; int debug; int nbursts; int64_t sclock;
 #include "C08/model_env.h"
